@@ -399,6 +399,12 @@ def _maybe_lose_cas(fn, kw):
             or kw.get('state') not in ('SUCCESS', 'ERROR', 'CANCELLED') \
             or kw.get('state') == inj['state']:
         return
+    # only what a concurrent operator stop could really have committed from
+    # that state: any final state from RUNNING, CANCELLED from PAUSED
+    possible = {'RUNNING': ('SUCCESS', 'ERROR', 'CANCELLED'),
+                'PAUSED': ('CANCELLED',)}
+    if inj['state'] not in possible.get(kw.get('cur_state'), ()):
+        return
     import json
     import sqlalchemy as sa
     ses = _mods['sa_base']._get_thread_local_session()
